@@ -818,6 +818,17 @@ pub fn run(env: &Env) -> i32 {
     cov.insert("rule".into(), json!("one evaluation = one child run of the real binary on a generated include graph; non-trivial = at least two files were consumed; distinct by hash of (files, symlinks, argv, plan)"));
     cov.insert("samples".into(), json!([{"argv": b0.case.argv, "symlinks": b0.world.symlinks, "shapes": b0.shapes, "files": b0.world.files}]));
     cov.insert("shapes_reached".into(), json!(shapes));
+    {
+        let all = ["cycle", "self-include", "diamond", "double-spelling", "symlinked-file", "symlinked-dir", "library-dir", "second-library-dir", "library-file", "via-library-dir", "via-library-file",
+                   "library-file-shadowed-by-local-file", "same-name-in-two-directories", "local-candidate-fails-with-other-errno", "unresolvable-include", "unsupported-pragma-in-the-graph", "directory-input"];
+        let mut probes: Vec<(&str, usize)> = all.iter().map(|k| (*k, shapes.get(k).copied().unwrap_or(0))).collect();
+        probes.push(("damaged or unreadable include", results.iter().map(|r| r.faults_fired).sum::<usize>()));
+        probes.push(("include-vs-inline twin judged", results.iter().filter(|r| r.twin_checked).count()));
+        crate::report::add_probes(&mut cov, &probes);
+        cov.insert("fault_kinds_fired".into(), json!({"hash-key": runs, "dir-order": shapes.get("directory-input").copied().unwrap_or(0),
+            "realpath-errno-on-local-candidate": shapes.get("local-candidate-fails-with-other-errno").copied().unwrap_or(0),
+            "damaged-or-unreadable-include": results.iter().map(|r| r.faults_fired).sum::<usize>()}));
+    }
     cov.insert("file_consumptions_checked".into(), json!(results.iter().map(|r| r.reads_checked).sum::<usize>()));
     cov.insert("include_vs_inline_twins_checked".into(), json!(results.iter().filter(|r| r.twin_checked).count()));
     cov.insert("unresolvable_includes_planted".into(), json!(results.iter().filter(|r| r.bad_checked).count()));
